@@ -176,10 +176,36 @@ def clustered_samples(seed, n):
     return out
 
 
-def native_vs_reference(seed, n):
+def layered_samples(seed, n):
+    """co-spherical / nearly co-spherical points whose coordinates along one or two axes are multiples of a large power of two (regular layers)"""
+    rng = random.Random(seed)
+    out = []
+    while len(out) < n:
+        tz = [rng.choice((0, 0, 16, 20, 32, 40)) for _ in range(3)]
+        bits = rng.choice((20, 40, 50))
+        p, q, s = ((rng.randrange(1, 2 ** bits) >> t) << t or (1 << t) for t in tz)
+        m = max(p, q, s)
+        if m + 2 >= R52 // 2:
+            continue
+        c = [((rng.randrange(m + 2, R52 - m - 2)) >> t) << t for t in tz]
+        cand = {tuple(c[a] + sg[a] * v[a] for a in range(3)) for v in ((p, q, s),) for sg in itertools.product((1, -1), repeat=3)}
+        cand = [list(x) for x in cand if all(0 <= y < R52 for y in x)]
+        if len(cand) < 5:
+            continue
+        pick = rng.sample(cand, 5)
+        if rng.random() < 0.7:
+            a = rng.randrange(3)
+            pick[4][a] += rng.choice((-1, 1)) * (1 << tz[a] if rng.random() < 0.5 else 1)
+            if not 0 <= pick[4][a] < R52:
+                continue
+        out.append(dict(zip(NAMES, pick)))
+    return out
+
+
+def native_vs_reference(seed, n, backend='ibig'):
     """native function vs the exact reference on adversarial samples (used when the encoding cannot be built)"""
-    samples = gen_samples(seed + 5, n // 3) + cospherical_samples(seed + 6, n // 3) + clustered_samples(seed + 7, n // 3)
-    nat = native_signs(samples)
+    samples = gen_samples(seed + 5, n // 4) + cospherical_samples(seed + 6, n // 4) + clustered_samples(seed + 7, n // 4) + layered_samples(seed + 8, n // 4)
+    nat = native_signs(samples, 'release', backend)
     bad = []
     for smp, s in zip(samples, nat):
         # orientation-independent statement: the predicate must equal the sign of the lifted determinant
